@@ -40,4 +40,16 @@ def x9y(u, v, SR, npts):
     return u * np.ones(int(npts)) + v
 
 
+def _lin2_twin(b, a, SR, npts):
+    """a second, different function that is also called `lin2` (as if defined in another module):
+    same parameter names, the other order"""
+    _rec("lin2", (b, a), SR, npts)
+    t = np.linspace(0, npts / SR, int(npts), endpoint=False)
+    return a + b * t
+
+
+_lin2_twin.__name__ = "lin2"
+_lin2_twin.__qualname__ = "lin2"
+
 USER = {f.__name__: f for f in (const, lin2, poly4, pi2pulse, x9y)}
+USER["lin2~"] = _lin2_twin
